@@ -11,7 +11,9 @@ A_NOTE = ('Trusted: the runtime contract in runtimes/ (the codec runtimes are no
           'value domain and bounds are listed in the evidence. Outside the bounds nothing is claimed. The front-ends are validated on every run of C01 against the real thing: '
           'for a sample of programs (all of them in the thorough tier) the emitted code is compiled and run natively with the reference runtimes (Python, Go, Java: encode and '
           'decode+re-encode; Rust, C++: decode+re-encode) on a pseudo-random concrete message and must produce the bytes the front-end computed; counterexamples of the Python, Go '
-          'and Java encoders are replayed natively before they are reported (a counterexample the native run does not reproduce is printed as UNCONFIRMED, never as a violation).')
+          'and Java encoders are replayed natively before they are reported, and for every language the first findings are checked for front-end faithfulness (the reference bytes of the '
+          'counterexample are decoded and re-encoded by the front-end and by the natively compiled emitted code; both must agree): a counterexample the native run does not reproduce is '
+          'printed as UNCONFIRMED, never as a violation. Programs whose emitted files depend on map iteration order (two packets sharing one output file name) carry no claim.')
 B_NOTE = ('Trusted: the go/ssa interpreter symv/gossa.py and its standard-library intrinsics, environment stubs listed in the evidence. The interpreter is validated on every run: '
           'what it computes on its default path (formatter output, visitor diagnostics, generated files) is compared with the real code run natively on the same text '
           '(ENGINE-VALIDATION line, evidence.coverage.engine_validation); a disagreement is reported as inconclusive, never as a violation. '
